@@ -735,16 +735,20 @@ func copyToPayloadFromOffset(r *pool.Message, payloadFile *memfile.File, offset 
 	return payloadSize, nil
 }
 
-func (b *BlockWise[C]) getCachedReceivedMessage(mg *messageGuard, r *pool.Message, tokenStr string, validUntil time.Time) (*pool.Message, func(), error) {
+// getCachedReceivedMessage returns the message the transfer is collected in, locked. joined tells that the message
+// was found (it was not created by this call): the caller has waited for its guard and must make sure that the
+// transfer is still the one in the cache.
+func (b *BlockWise[C]) getCachedReceivedMessage(mg *messageGuard, r *pool.Message, tokenStr string, validUntil time.Time) (msg *pool.Message, guard *messageGuard, closeFn func(), err error) {
 	cannotLockError := func(err error) error {
 		return fmt.Errorf("processReceivedMessage: cannot lock message: %w", err)
 	}
 	if mg != nil {
-		errA := mg.Acquire(mg.Context(), 1)
+		// (the context of the block, not of the cached message: that one may have been handed on and released already)
+		errA := mg.Acquire(r.Context(), 1)
 		if errA != nil {
-			return nil, nil, cannotLockError(errA)
+			return nil, nil, nil, cannotLockError(errA)
 		}
-		return mg.Message, func() { mg.Release(1) }, nil
+		return mg.Message, mg, func() { mg.Release(1) }, nil
 	}
 	closeFnList := []func(){}
 	appendToClose := func(m *messageGuard) {
@@ -752,21 +756,21 @@ func (b *BlockWise[C]) getCachedReceivedMessage(mg *messageGuard, r *pool.Messag
 			m.Release(1)
 		})
 	}
-	closeFn := func() {
+	closeFn = func() {
 		for i := range closeFnList {
 			closeFnList[len(closeFnList)-1-i]()
 		}
 	}
-	msg := b.cc.AcquireMessage(r.Context())
-	msg.ResetOptionsTo(r.Options())
-	msg.SetToken(r.Token())
-	msg.SetSequence(r.Sequence())
-	msg.SetBody(memfile.New(make([]byte, 0, 1024)))
-	msg.SetCode(r.Code())
-	mg = newRequestGuard(msg)
-	errA := mg.Acquire(mg.Context(), 1)
+	newMsg := b.cc.AcquireMessage(r.Context())
+	newMsg.ResetOptionsTo(r.Options())
+	newMsg.SetToken(r.Token())
+	newMsg.SetSequence(r.Sequence())
+	newMsg.SetBody(memfile.New(make([]byte, 0, 1024)))
+	newMsg.SetCode(r.Code())
+	mg = newRequestGuard(newMsg)
+	errA := mg.Acquire(r.Context(), 1)
 	if errA != nil {
-		return nil, nil, cannotLockError(errA)
+		return nil, nil, nil, cannotLockError(errA)
 	}
 	appendToClose(mg)
 	element, loaded := b.receivingMessagesCache.LoadOrStore(tokenStr, cache.NewElement(mg, validUntil, func(d *messageGuard) {
@@ -780,17 +784,19 @@ func (b *BlockWise[C]) getCachedReceivedMessage(mg *messageGuard, r *pool.Messag
 		mg = element.Data()
 		if mg == nil {
 			closeFn()
-			return nil, nil, errors.New("request was already stored in cache")
+			return nil, nil, nil, errors.New("request was already stored in cache")
 		}
-		errA := mg.Acquire(mg.Context(), 1)
+		errA := mg.Acquire(r.Context(), 1)
 		if errA != nil {
 			closeFn()
-			return nil, nil, cannotLockError(errA)
+			return nil, nil, nil, cannotLockError(errA)
 		}
 		appendToClose(mg)
+		// another block has started the transfer between the look-up and here
+		return mg.Message, mg, closeFn, nil
 	}
 
-	return mg.Message, closeFn, nil
+	return mg.Message, nil, closeFn, nil
 }
 
 //nolint:gocyclo,gocognit
@@ -883,16 +889,17 @@ func (b *BlockWise[C]) processReceivedMessage(w *responsewriter.ResponseWriter[C
 			return nil
 		}
 	}
-	cachedReceivedMessage, closeCachedReceivedMessage, err := b.getCachedReceivedMessage(cachedReceivedMessageGuard, r, tokenStr, validUntil)
+	cachedReceivedMessage, joinedGuard, closeCachedReceivedMessage, err := b.getCachedReceivedMessage(cachedReceivedMessageGuard, r, tokenStr, validUntil)
 	if err != nil {
 		return err
 	}
 	defer closeCachedReceivedMessage()
 	verifhook.Yield("blockwise.receive.holdingGuard", 0)
-	if cachedReceivedMessageGuard != nil {
-		// This block has waited for the transfer's guard behind another block. If that one completed the transfer
+	if joinedGuard != nil {
+		// This block has waited for the transfer's guard behind another block - whether it found the transfer when
+		// it looked it up or only when it tried to start one of its own. If that other block completed the transfer
 		// (or gave it up), the message is no longer the transfer's: it has been handed on, perhaps released.
-		if e := b.receivingMessagesCache.Load(tokenStr); e == nil || e.Data() != cachedReceivedMessageGuard {
+		if e := b.receivingMessagesCache.Load(tokenStr); e == nil || e.Data() != joinedGuard {
 			return fmt.Errorf("block(%v) arrived while the transfer it belongs to was ending", num)
 		}
 	}
